@@ -6,6 +6,16 @@ import Ibx.Props.C19
   Moving `wg.Add(1)` back into the session goroutine, closing `opChan` again, adding a bare blocking wait to
   the retention loop, or handing a context to a protocol handler makes one of these obligations stop
   checking; the companion theorems `Props.C19.drain_unsafe`, `hub_panic_closesOpChan` name the schedule.
+
+  The facts are STRUCTURAL (harness/cmd/extract/shutdown.go, toolkit in retention.go): unexported things are found
+  through anchors and not by name — the WaitGroup is "a struct field of type sync.WaitGroup", the accept loop is
+  "what Start's go statement runs (it calls Accept())", the session function "what the go statement of that loop
+  runs", the listener "the field Accept() is called on", the connection "the net.Conn parameter", the context
+  "the context.Context parameter", the hub's operation channel "the field Hub.Start receives from beside
+  ctx.Done()", its done channel "the field closed in that case", the producers "the functions that send on the
+  operation channel", the retention Join channel "the field Join receives from".  Unexported helpers are followed
+  as if inlined and conditions are compared as path conditions, so renaming, helper extraction, guard clauses and
+  log text do not move these facts; an unrecognised shape gives unknown / none / false.
 -/
 namespace Ibx.Tie.Shutdown
 open Ibx.Model.Shutdown Ibx.Props.C19
@@ -23,7 +33,7 @@ theorem pop3_wgAdd_known : (Drain.WgAdd.parse Gen.Shutdown.pop3_wgAdd).isSome = 
 theorem smtp_serveCounted_known : Gen.Shutdown.smtp_serveCounted.isSome = true := by decide
 theorem pop3_serveCounted_known : Gen.Shutdown.pop3_serveCounted.isSome = true := by decide
 
-/-- the SMTP source has an `Add` before the `go` statement -/
+/-- the SMTP source has a `<WaitGroup>.Add` before the `go` statement of the accept loop, on every path to it -/
 theorem smtp_wgAdd_before : smtpCfg.wgAdd.before = true := by decide
 theorem pop3_wgAdd_before : pop3Cfg.wgAdd.before = true := by decide
 
@@ -32,8 +42,9 @@ theorem C19_smtp_drain_safe : DrainSafe smtpCfg := drain_after_and_only_after sm
 /-- `Drain()` of the POP3 server, as the source is now -/
 theorem C19_pop3_drain_safe : DrainSafe pop3Cfg := drain_after_and_only_after pop3Cfg pop3_wgAdd_before
 
-/-- the accept loop is counted in the WaitGroup (F-19c fix): `s.wg.Add(1)` before `go s.serve(ctx)`,
-    `defer s.wg.Done()` in serve.  Reverting it makes these two obligations stop checking; the failing
+/-- the accept loop is counted in the WaitGroup (F-19c fix): one `<WaitGroup>.Add` in Start before the go statement
+    that runs the accept loop, on the same path (nothing can return in between), an unconditional deferred `Done`
+    in the accept-loop function, and no other WaitGroup call in Start.  Reverting it makes these two obligations stop checking; the failing
     schedules are `Props.C19.handoff_window` and `early_drain_window`. -/
 theorem smtp_serve_counted : smtpCfg.serveCounted = true := by decide
 theorem pop3_serve_counted : pop3Cfg.serveCounted = true := by decide
@@ -78,8 +89,11 @@ theorem C19_hub_stop_safe (cap : Nat) (s : Hub.St) (h : Hub.Reach hubMode cap s)
 
 theorem ret_every_wait_selects_done : Gen.Shutdown.ret_selects = Gen.Shutdown.ret_selectsWithDone ∧
     Gen.Shutdown.ret_blockingOutsideSelect = 0 := by decide
-/-- the three waits the `Ret` model has (`preSleep`, `postScan`, `waiting`) and what their Done branch does -/
-theorem ret_done_branches : Gen.Shutdown.ret_doneBranches = ["break retentionLoop", "break retentionLoop", "return false"] := by decide
+/-- the three waits the `Ret` model has (`preSleep`, `postScan`, `waiting`) and what their Done branch does, logging
+    aside: a break labelled with Start's loop (twice), `return false` from the visitor callback -/
+theorem ret_done_branches : Gen.Shutdown.ret_doneBranches = ["breakLoop", "breakLoop", "returnFalse"] := by decide
+/-- Start closes the channel field Join receives from exactly twice — on the disabled path right before its return and
+    after the loop — and that receive is Join's only blocking operation -/
 theorem ret_join_shape : Gen.Shutdown.ret_closesShutdown = 2 ∧ Gen.Shutdown.ret_joinWaitsShutdown = true := by decide
 
 end Ibx.Tie.Shutdown
